@@ -9,6 +9,7 @@ macro_rules! ct_t { ($($n:ident: $t:ty, $l:literal, $u:literal;)*) => { paste::p
 	#[kani::proof] #[kani::unwind($u)] pub fn [<c19t_cnt_ $n>]() { h_counted::<$t, $l>() } )* } } }
 crate::fixed_types_q!(ct_q);
 crate::fixed_types_t!(ct_t);
+crate::fixed_types_wide!(ct_t);
 macro_rules! ctc_q { ($($n:ident: $t:ty, $c:expr, $l:literal, $nn:literal, $s:literal, $u:literal;)*) => { paste::paste! { $(
 	#[kani::proof] #[kani::unwind($u)] pub fn [<c19q_cnt_ $n>]() { h_counted_cnt::<$t, $l>($c, $s) } )* } } }
 macro_rules! ctc_t { ($($n:ident: $t:ty, $c:expr, $l:literal, $nn:literal, $s:literal, $u:literal;)*) => { paste::paste! { $(
